@@ -893,10 +893,17 @@ class Collection(object):
                                 existing_document, spec, nested_field_list,
                                 create_missing=False)
 
-                            if subdocument is not None and \
-                                    nested_field_list[-1] in subdocument:
-                                arr = subdocument[nested_field_list[-1]]
-                                subdocument[nested_field_list[-1]] = [
+                            last = nested_field_list[-1]
+                            if isinstance(subdocument, list) and last.isdigit():
+                                # the array to pull from is an item of an array
+                                last = int(last)
+                                has_array = last < len(subdocument)
+                            else:
+                                # a path through a scalar reaches nothing to pull from
+                                has_array = isinstance(subdocument, dict) and last in subdocument
+                            if has_array:
+                                arr = subdocument[last]
+                                subdocument[last] = [
                                     obj for obj in arr if obj not in value]
                 elif k == '$push':
                     for field, value in v.items():
